@@ -777,10 +777,10 @@ func parseScheduledStopTimes(csv *csv.File, stops []Stop, trips []ScheduledTrip)
 		if !arrivalOk && !departureOk {
 			continue
 		}
-		if !departureOk {
+		if !arrivalOk {
 			arrival = departure
 		}
-		if !arrivalOk {
+		if !departureOk {
 			departure = arrival
 		}
 		stopSequence, err := strconv.Atoi(stopSequenceKey.Read())
